@@ -50,6 +50,35 @@ MUTANTS = [
      "return (edges[:-1] + edges[1:]) / 2.0"),
     ("c01-max-angle-zmin", ["C01"], "correlation/measurements.py",
      "for zmid in config.binning.binning.mids", "for zmid in [max(config.binning.zmin, 0.05)]"),
+    # ---- C02
+    ("c02-df-chunk-start-off-by-one", ["C02", "C18"], "catalog/readers.py",
+     "        end = self._num_samples  # already incremented by chunksize in __next__\n        start = end - self.chunksize\n        chunk = self._data[start:end]",
+     "        end = self._num_samples  # already incremented by chunksize in __next__\n        start = end - self.chunksize + 1\n        chunk = self._data[start:end]"),
+    ("c02-last-partial-chunk-dropped", ["C02", "C18"], "catalog/readers.py",
+     "        if self._num_samples >= self.num_records:\n            raise StopIteration()", "        if self._num_samples + self.chunksize > self.num_records + (self.chunksize if self._num_samples == 0 else 0):\n            raise StopIteration()"),
+    ("c02-parquet-remainder-lost", ["C02", "C18"], "catalog/readers.py",
+     "        if len(remainder) > 0:\n            self._group_cache.appendleft(remainder)", "        if len(remainder) > self.chunksize:\n            self._group_cache.appendleft(remainder)"),
+    ("c02-flush-skipped-on-close", ["C02"], "catalog/patch.py",
+     "        self.flush()\n        self._file.close()", "        if self.buffersize <= 1:\n            self.flush()\n        self._file.close()"),
+    ("c02-groupby-loses-first", ["C02"], "utils/misc.py",
+     "    yield from zip(uniques, np.split(values_sorted, idx_split[1:]))", "    yield from zip(uniques[1:], np.split(values_sorted, idx_split[1:])[1:])"),
+    ("c02-deg2rad-twice-dec", ["C02"], "datachunk.py",
+     '            array["dec"] = np.deg2rad(array["dec"])', '            array["dec"] = np.deg2rad(np.deg2rad(array["dec"]))'),
+    ("c02-deg2rad-radian-input", ["C02"], "datachunk.py",
+     "        if degrees:\n            array", "        if degrees or True:\n            array"),
+    ("c02-patchids-used-with-centres", ["C02"], "catalog/catalog.py",
+     "    if patch_centers is not None:\n        patch_ids = assign_patch_centers(patch_centers, chunk)\n        if has_patch_ids:",
+     "    if patch_centers is not None and not has_patch_ids:\n        patch_ids = assign_patch_centers(patch_centers, chunk)\n        if has_patch_ids:"),
+    ("c02-buffer-flush-drops-shard", ["C02"], "catalog/patch.py",
+     "        self._shards.append(data)\n\n        if self.cachesize >= self.buffersize:\n            self.flush()",
+     "        if self.cachesize >= self.buffersize > 0:\n            self.flush()\n            self._shards = []\n        self._shards.append(data)\n        if self.buffersize > 1 and self.cachesize > self.buffersize:\n            self._shards.pop()"),
+    ("c02-fits-no-byteswap", ["C02"], "catalog/readers.py",
+     "            return array.view(array.dtype.newbyteorder()).byteswap()", "            return array.view(array.dtype.newbyteorder())"),
+    ("c02-f4-cast-via-f4", ["C02"], "datachunk.py",
+     "            array[name] = asarray_func(value)", "            array[name] = asarray_func(value).astype('f4') if name == 'redshifts' else asarray_func(value)"),
+    ("c02-sentinel-before-last-map", ["C02"], "catalog/catalog.py",
+     "                for chunk in chunk_iter:\n                    pool.map(chunk_processing_task, np.array_split(chunk, max_workers))\n\n                patch_queue.put(EndOfQueue)",
+     "                pending = None\n                for chunk in chunk_iter:\n                    pending = pool.map_async(chunk_processing_task, np.array_split(chunk, max_workers))\n\n                patch_queue.put(EndOfQueue)\n                if pending is not None:\n                    pending.get()"),
     # ---- C03
     ("c03-diag-minus", ["C03"], "correlation/paircounts.py",
      "samples = sum_tiled - row_sum - col_sum + diag", "samples = sum_tiled - row_sum - col_sum - diag"),
